@@ -1612,3 +1612,18 @@ def class_table(index, class_q, attr):
 
 def class_schema(index, class_q):
     return evaluator(index).class_schema(index.cls(class_q))
+
+
+def class_attr_schema(index, class_q, attr):
+    """SchemaTable of a class-level `attr = Schema({...})` binding, looked up along the MRO."""
+    ev = evaluator(index)
+    ci = index.cls(class_q)
+    for q in ci.mro:
+        c = index.classes.get(q)
+        if c is not None and attr in c.attrs:
+            t = ev.class_attr(c, attr)
+            tab = t.value if t.kind == 'schema' else ev.as_schema(t)
+            if tab is None or not tab.is_dict:
+                raise AnalysisError('%s.%s is not a dict schema: %s' % (q, attr, t.text()[:80]))
+            return tab
+    raise AnalysisError('anchor vanished: %s.%s not found' % (class_q, attr))
